@@ -954,7 +954,10 @@ class Response:
         value = '<' + uri_encode(target) + '>; rel=' + rel
 
         if title is not None:
-            value += f'; title="{title}"'
+            # NOTE: quoted-string (RFC 9110, Section 5.6.4): escape the two
+            #   characters that would otherwise end or alter the string.
+            escaped_title = title.replace('\\', '\\\\').replace('"', '\\"')
+            value += f'; title="{escaped_title}"'
 
         if title_star is not None:
             value += f"; title*=UTF-8'{title_star[0]}'{uri_encode_value(title_star[1])}"
